@@ -20,17 +20,19 @@ Lemma ered_bin_vs_red_bin : forall o la lb,
   lit_int_only la = true -> lit_int_only lb = true ->
   match o with OEq | ONe => false | _ => true end = true ->
   (ered_bin o la lb = LSig \/ ered_bin o la lb = red_bin o la lb) /\
+  ered_bin o la lb <> LSig /\
   lres_int_only (red_bin o la lb) = true.
 Proof.
   intros o la lb Ha Hb Ho.
   destruct la; try discriminate; destruct lb; try discriminate;
-    destruct o; try discriminate; cbn; try (split; [right; reflexivity | reflexivity]).
-  - destruct (proj1 (raw_div_agrees 32 z z0)) as [S|S]; rewrite S; cbn.
-    + split; [left; reflexivity|]. destruct (idiv 32 z z0); reflexivity.
-    + split; [right; reflexivity|]. destruct (idiv 32 z z0); reflexivity.
-  - destruct (proj2 (raw_div_agrees 32 z z0)) as [S|S]; rewrite S; cbn.
-    + split; [left; reflexivity|]. destruct (imod 32 z z0); reflexivity.
-    + split; [right; reflexivity|]. destruct (imod 32 z z0); reflexivity.
+    destruct o; try discriminate; cbn;
+    try (split; [right; reflexivity | split; [discriminate | reflexivity]]).
+  - pose proof (idiv_not_sigfpe 32 z z0) as NS.
+    split; [right; reflexivity|]. destruct (idiv 32 z z0); cbn; split; try discriminate; try reflexivity.
+    exfalso; apply NS; reflexivity.
+  - pose proof (imod_not_sigfpe 32 z z0) as NS.
+    split; [right; reflexivity|]. destruct (imod 32 z z0); cbn; split; try discriminate; try reflexivity.
+    exfalso; apply NS; reflexivity.
 Qed.
 
 Lemma ered_un_vs_red_un : forall o la, lit_int_only la = true ->
@@ -85,7 +87,7 @@ Proof.
     assert (Lb : lit_int_only lb = true) by (destruct lb; try discriminate; reflexivity).
     assert (Oo : match o with OEq | ONe => false | _ => true end = true)
       by (destruct o; try reflexivity; discriminate).
-    destruct (ered_bin_vs_red_bin o la lb La Lb Oo) as [[S|Eq] Io].
+    destruct (ered_bin_vs_red_bin o la lb La Lb Oo) as ([S|Eq] & _ & Io).
     + left. rewrite S. reflexivity.
     + rewrite Eq. right. split; [reflexivity|]. intros e' E'.
       eapply of_lres_int_only; [exact Io | exact K | exact E'].
@@ -120,12 +122,39 @@ Proof.
   rewrite <- R. reflexivity.
 Qed.
 
-(* "enumred.c never traps" is false *)
-Theorem enumred_never_crashes_refuted :
-  exists e v, ty_of e = Some TInt /\ int_only e = true /\ efold e = FCrash /\ rt_eval e = Val v.
+(* enumred.c never traps, on any tree (after the fix of expr_div_enumred / expr_mod_enumred) *)
+Lemma ered_bin_no_sig : forall o la lb, ered_bin o la lb <> LSig.
 Proof.
-  exists (EBin Div (ELit (LInt (-2147483648))) (ELit (LInt (-1)))), (VInt (-2147483648)).
-  repeat split; vm_compute; reflexivity.
+  intros o la lb. destruct la, lb; cbn; try discriminate; destruct o; cbn; try discriminate.
+  - pose proof (idiv_not_sigfpe 32 z z0) as NS. destruct (idiv 32 z z0); cbn; try discriminate.
+    intros _. apply NS. reflexivity.
+  - pose proof (imod_not_sigfpe 32 z z0) as NS. destruct (imod 32 z z0); cbn; try discriminate.
+    intros _. apply NS. reflexivity.
+Qed.
+
+Lemma enode_sup_no_crash : forall a, enode_sup a <> FCrash.
+Proof. intros a. unfold enode_sup. destruct a; try discriminate. destruct l; discriminate. Qed.
+
+Theorem efold_never_crashes : forall e, efold e <> FCrash.
+Proof.
+  induction e as [l | o a IHa | o a IHa b IHb | c a IHa | a IHa | c IHc a IHa b IHb]; cbn [efold].
+  - destruct l; discriminate.
+  - destruct (efold a) as [a'| |]; [|discriminate | exact IHa].
+    unfold enode_un. destruct a'; try discriminate. destruct o, l; cbn; discriminate.
+  - destruct (efold a) as [a'| |]; [| | contradiction];
+      (destruct (efold b) as [b'| |]; [| | contradiction]); cbn [fseq]; try discriminate.
+    unfold enode_bin. destruct a' as [la| | | | |]; try discriminate.
+    destruct b' as [lb| | | | |]; try discriminate.
+    pose proof (ered_bin_no_sig o la lb) as NS.
+    destruct (ered_bin o la lb); cbn; try discriminate. intros _. apply NS. reflexivity.
+  - discriminate.
+  - destruct (efold a) as [a'| |]; [|discriminate | exact IHa]. apply enode_sup_no_crash.
+  - destruct (efold c) as [c'| |]; [| | contradiction];
+      (destruct (efold a) as [a'| |]; [| | contradiction]);
+      (destruct (efold b) as [b'| |]; [| | contradiction]);
+      cbn [fseq3 is_crash orb]; try discriminate.
+    unfold enode_cond. destruct c'; try discriminate. destruct l; try discriminate.
+    destruct b0; apply enode_sup_no_crash.
 Qed.
 
 (* the conditional is reduced completely by enumred.c (regression witness of the shape used by
